@@ -405,8 +405,9 @@ Definition add_subdir (c : catalog) (child : cnode) (cdmap : dmap) (nm : name) :
         (dm_merge (cdm c) (map (fun '(k, a) => (k, nm :: a)) cdmap)).
 
 (** the key validation at the top of AddTimeBucket: every item names a child of the previous level
-    (an item cannot contain the separator: the items are the key split on it) *)
-Definition item_ok (c : name) : bool := negb (is_nil c || is_dot c || is_dotdot c).
+    (an item cannot contain the separator: the items are the key split on it) that a restart scan will see *)
+Definition item_ok (c : name) : bool :=
+  negb (is_nil c || is_dot c || is_dotdot c || bytes_eqb c s_metadata_db).   (* metadata.db: the name load() skips *)
 
 (** d.AddTimeBucket(tbk, f) with f.Path = [fpath] and header tag [tag] *)
 Definition add_time_bucket (w : world) (c : catalog) (k : list byte) (fpath tag : list byte)
